@@ -116,6 +116,31 @@ let handle (toks : string list) : string =
           | 0 -> let g = b01 (evaluate s r) in
                  if g = a then "ok nt" else Printf.sprintf "diff %s model=%s impl=%s" site g a
           | _ -> "ok"))
+  | [("K" :: form :: text :: rowt); [seq; nt; nf; np]] ->
+      (* one compiled predicate evaluated by several goroutines at once: seq = what a private compilation
+         answers for the row, nt/nf/np = what the concurrent evaluations on the shared one answered *)
+      if seq = "P" then "chk panic sequential evaluation panicked" else
+      let t = bytes_of_hex text in
+      let r = row_of_toks rowt in
+      let cnt s = n_of_int (int_of_string s) in
+      (match chk_C12K (seq = "1") (cnt nt) (cnt nf) (cnt np) with
+       | Some ClConcurrentPanics ->
+           Printf.sprintf "chk concurrent_evaluation_panics form=%s decision=%s concurrent: accepted=%s rejected=%s panicked=%s" form seq nt nf np
+       | Some ClConcurrentDiffers ->
+           Printf.sprintf "chk concurrent_decision_differs form=%s decision=%s concurrent: accepted=%s rejected=%s panicked=%s" form seq nt nf np
+       | None ->
+         if form = "a" then "ok nt" else
+         (match parse_shape t with
+          | None -> "bad concurrent predicate outside the shape language"
+          | Some s ->
+            (match status_of_shape s with
+             | 0 -> let g = b01 (if form = "g" then eval_general s r else evaluate s r) in
+                    if g = seq then "ok nt" else Printf.sprintf "diff concurrent_%s model=%s impl=%s" form g seq
+             | _ -> "bad concurrent predicate that does not compile")))
+  | [["KX"; form; _text]; [what; msg]] ->
+      (* the process that evaluated this predicate from several goroutines died / never came back *)
+      Printf.sprintf "chk concurrent_evaluation_%s form=%s %s" what form
+        (String.concat "" (List.map (fun c -> String.make 1 (Char.chr (int_of_n c))) (bytes_of_hex msg)))
   | _ -> "bad line"
 
 let () = Registry.register "C12" handle
